@@ -204,7 +204,8 @@ def build_config(T, W, case):
                 ie["config"] = li
             es = T.entries_of(i)
             if es:
-                ie["configs"] = [level(e) for e in es]
+                # an entry without settings of its own is written `{}` (first) or `null` (the others)
+                ie["configs"] = [level(e) or ({} if k == 0 else None) for k, e in enumerate(es)]
             # an interface with nothing to say is written `{}` (N) or `null` (the others): two different code paths
             ifs[name] = ie or ({} if T.nodes[i]["letter"] == "N" else None)
         if ifs:
